@@ -3,7 +3,7 @@
 // Contracts for package internal (comment-only; compiled only with -tags verif).
 package internal
 
-//@ func (*internal.ChannelState).AddLog {C02,C03}
+//@ func (*internal.ChannelState).AddLog
 //@   effectfree -- abstraction: the stage log (object behind Stages) is not modelled; frame obligation below keeps it honest
 
 //@ coverage [record-codec] {C06}: ChannelState, EncodedVoucher, EncodedVoucherResult
